@@ -338,6 +338,11 @@ func init() {
 	builtinSpecs["(*time.Ticker).Stop"] = func(e *Engine, st *State, fn *ssa.Function, args []Value, pos token.Pos) []*State {
 		return ret(st, nil)
 	}
+	builtinSpecs["(*sync.Pool).Put"] = func(e *Engine, st *State, fn *ssa.Function, args []Value, pos token.Pos) []*State {
+		iv := args[1].(IfaceV)
+		e.eventNamed(st, "pool.Put", []Term{iv.Tag, iv.Pay})
+		return ret(st, nil)
+	}
 	builtinSpecs["runtime.Gosched"] = func(e *Engine, st *State, fn *ssa.Function, args []Value, pos token.Pos) []*State {
 		return ret(st, nil)
 	}
